@@ -234,3 +234,83 @@ fn d16_buffer_is_released_with_the_layout_it_was_allocated_with() {
     let after = layout_audit::MISMATCHES.with(|m| m.get());
     assert_eq!(after - before, 0, "deallocation size differs from allocation size");
 }
+
+fn no_panic<T>(what: &str, f: impl FnOnce() -> T + std::panic::UnwindSafe) -> T {
+    match std::panic::catch_unwind(f) {
+        Ok(v) => v,
+        Err(_) => panic!("{} panicked", what),
+    }
+}
+
+/// D5 (C07, R07.1): the slice transformer indexes the string with unchecked bounds.
+#[test]
+fn d05_slice_transformer_never_panics() {
+    let cfg = RouterConfig::default();
+    for (from, to, uri) in [("5", "3", "/a/abcdefgh"), ("1", "2", "/a/%C3%A9"), ("1", "3", "/a/é")] {
+        let cfg = cfg.clone();
+        no_panic(&format!("slice from={} to={} on {}", from, to, uri), move || {
+            let mut router = Router::<Rule>::from_config(cfg.clone());
+            router.insert(rule(&format!(
+                r#"{{"id":"r1","rank":1,"source":{{"path":"/a/@m"}},"target":"/b/@m","status_code":301,"markers":[{{"name":"m","regex":".+","transformers":[{{"type":"slice","options":{{"from":"{}","to":"{}"}}}}]}}]}}"#,
+                from, to
+            )));
+            let q = req(&cfg, uri, None, None);
+            let mut action = Action::from_routes_rule(router.match_request(&q), &q, None);
+            action.filter_headers(Vec::new(), 0, false, None)
+        });
+    }
+}
+
+/// D6 (C07, R07.1): an example with an unparsable ip address panics in every analysis.
+#[test]
+fn d06_example_with_invalid_ip_is_skipped_not_fatal() {
+    use redirectionio::api::{TestExamplesInput, TestExamplesOutput};
+    let input = r#"{"router_config":{},"max_hops":3,"rules":[
+      {"id":"r1","rank":1,"source":{"path":"/a"},"target":"/b","status_code":301,
+       "examples":[{"url":"/a","must_match":true,"unit_ids_applied":[],"ip_address":"not-an-ip"}]}]}"#;
+    let n = no_panic("test_examples with ip_address:not-an-ip", || {
+        let i: TestExamplesInput = serde_json::from_str(input).unwrap();
+        TestExamplesOutput::create_result_without_project(i).example_count
+    });
+    assert_eq!(n, 1);
+}
+
+/// D7 (C07, R07.1): a redirect target without host (mailto:) panics when project domains are set.
+#[test]
+fn d07_target_without_host_does_not_panic() {
+    use redirectionio::api::{TestExamplesInput, TestExamplesOutput};
+    let input = r#"{"router_config":{},"max_hops":3,"project_domains":["example.org"],"rules":[
+      {"id":"r1","rank":1,"source":{"path":"/a"},"target":"mailto:joe@example.org","status_code":301,
+       "examples":[{"url":"/a","must_match":true,"unit_ids_applied":[]}]}]}"#;
+    let n = no_panic("test_examples with a mailto: target and project_domains", || {
+        let i: TestExamplesInput = serde_json::from_str(input).unwrap();
+        TestExamplesOutput::create_result_without_project(i).example_count
+    });
+    assert_eq!(n, 1);
+}
+
+/// D13 (C07/C16, R07.2): the script-data states of the tokenizer recurse once per input byte, so a
+/// large <script> body overflows the stack (the process is killed: run in a child process).
+#[test]
+fn d13_large_script_body_does_not_overflow_the_stack() {
+    if std::env::var("RIO_D13_CHILD").is_ok() {
+        let mut doc = String::from("<html><body><script>");
+        doc.push_str(&"a".repeat(4_000_000));
+        doc.push_str("</script></body></html>");
+        let mut t = redirectionio::html::Tokenizer::new(doc.into_bytes());
+        let mut k = 0;
+        while t.next().unwrap() != redirectionio::html::TokenType::ErrorToken {
+            k += 1;
+        }
+        assert!(k >= 5);
+        return;
+    }
+    let status = std::process::Command::new(std::env::current_exe().unwrap())
+        .args(["--exact", "d13_large_script_body_does_not_overflow_the_stack", "--test-threads", "1"])
+        .env("RIO_D13_CHILD", "1")
+        .stdout(std::process::Stdio::null())
+        .stderr(std::process::Stdio::null())
+        .status()
+        .unwrap();
+    assert!(status.success(), "tokenising a 4 MB script body killed the process: {:?}", status);
+}
